@@ -18,21 +18,22 @@ TraceStep ==
     /\ l <= Len(Tr)
     /\ l' = l + 1
     /\ \/ ev.op = "reset" /\ a' = EmptyMap /\ b' = EmptyMap /\ bl' = FALSE /\ it' = NIL /\ held' = 0
-       \/ ev.op = "set" /\ OpSet(ev.args[1], ev.args[2])
-       \/ ev.op = "set_pair" /\ OpSetPair(ev.args[1], ev.args[2])
-       \/ ev.op = "set_keep" /\ OpSetKeep(ev.args[1], ev.args[2])
+       \/ ev.op = "set" /\ OpSet(ev.args[1], ev.args[2], ev.args[3], ev.args[4])
+       \/ ev.op = "set_pair" /\ OpSetPair(ev.args[1], ev.args[2], ev.args[3], ev.args[4])
+       \/ ev.op = "set_keep" /\ OpSetKeep(ev.args[1], ev.args[2], ev.args[3], ev.args[4])
        \/ ev.op = "caller_mutates" /\ OpCallerMutates
        \/ ev.op = "caller_deletes" /\ OpCallerDeletes
        \/ ev.op = "set_from" /\ OpSetFrom(ev.args[1], ev.args[2])
+       \/ ev.op = "set_component" /\ OpSetComponent(ev.args[1], ev.args[2])
        \/ ev.op = "set_own_pair" /\ OpSetOwnPair(ev.args[1])
-       \/ ev.op = "set_own_key" /\ OpSetOwnKey(ev.args[1], ev.args[2])
+       \/ ev.op = "set_own_key" /\ OpSetOwnKey(ev.args[1], ev.args[2], ev.args[3])
        \/ ev.op = "remove_own_key" /\ OpRemoveOwnKey(ev.args[1])
-       \/ ev.op = "fill_set" /\ OpFillSet(ev.args[1], ev.args[2], ev.args[3], ev.args[4])
-       \/ ev.op = "remove" /\ OpRemove(ev.args[1])
+       \/ ev.op = "fill_set" /\ OpFillSet(ev.args[1], ev.args[2], ev.args[3], ev.args[4], ev.args[5])
+       \/ ev.op = "remove" /\ OpRemove(ev.args[1], ev.args[2])
        \/ ev.op = "done" /\ OpDone
-       \/ ev.op = "get" /\ OpGet(ev.args[1])
-       \/ ev.op = "has_key" /\ OpHasKey(ev.args[1])
-       \/ ev.op = "has_value" /\ OpHasValue(ev.args[1])
+       \/ ev.op = "get" /\ OpGet(ev.args[1], ev.args[2])
+       \/ ev.op = "has_key" /\ OpHasKey(ev.args[1], ev.args[2])
+       \/ ev.op = "has_value" /\ OpHasValue(ev.args[1], ev.args[2])
        \/ ev.op = "count" /\ OpCount
        \/ ev.op = "get_keys" /\ OpGetKeys(ev.args[1], ev.args[2], ev.args[3])
        \/ ev.op = "get_values" /\ OpGetValues(ev.args[1], ev.args[2], ev.args[3])
